@@ -777,6 +777,13 @@ theorem tracker_iff (recs : List (List Line)) (hok : ∀ rec ∈ recs, ∀ l ∈
       (∀ rec ∈ recs, ∀ l ∈ rec, l.r ≤ p ∧ l.x ≤ w - p - 1) :=
   TrackerExact.tracker_iff recs hok hterm p w hp hw
 
+/-- **`rpl = bpl = −1` (unset) after the scan ⇔ no line of the file is followed by another line of its record** (every record has at
+    most one data line): with `tracker_iff` the three outcomes — unset, a positive geometry, invalidated — are each characterised. -/
+theorem tracker_unset_iff (recs : List (List Line)) (hok : ∀ rec ∈ recs, ∀ l ∈ rec, l.Ok)
+    (hterm : ∀ rec ∈ recs, ∀ l ∈ rec.dropLast, l.eol = true) :
+    ((runFile {} recs).rpl = -1 ∧ (runFile {} recs).bpl = -1) ↔ ∀ rec ∈ recs, rec.dropLast = [] :=
+  TrackerExact.tracker_unset_iff recs hok hterm
+
 /-- **Soundness, as the reverse-window / FetchSubseq arithmetic uses it**: with `rpl = p > 0` and `bpl = w > 0` after the scan, in every
     record the lines in front of any line are full lines (`w` bytes, `p` residues: `Geometry.FullLines`), and no line holds more than `p`
     residues — so residue `start` of a record lies on its line `(start − 1) / p`, at byte `((start − 1) / p) · w` + a position within that
